@@ -187,6 +187,9 @@ func (dsc *dataStoreCommand) setKey(keyName, str string, options bitflags, expir
 				return
 			}
 			argBytes = append(strBytes, argBytes...)
+
+			// appending modifies the value in place: its expiry stays
+			expiration = time.Time(oldSk.expiresAt)
 		}
 
 	} else {
